@@ -48,12 +48,14 @@ class Opts:
         self.comp = True
         self.eq = False
         self.divmod = False
+        self.divmod_item = False    # divmod(t, u)[i] as a projection (needs proj)
         self.knob_single_target = False
         self.comp_one_in = 6        # frequency of computed-key reads (whole-container dependencies)
         self.math_builtins = True   # floor / ceil / trunc (print as bare names: excluded where text is re-evaluated)
         self.allow_raise = True     # keep a raising op as the last op (else drop it)
         self.weights = None
         self.depth = 3
+        self.fresh = False          # assignment targets that do not exist yet (W.FRESH_LEAVES)
         for k, v in kw.items():
             if not hasattr(self, k):
                 raise TypeError(k)
@@ -100,6 +102,12 @@ class Gen:
     def leaves(self):
         return W.NUM_LEAVES if self.o.nested else W.FLAT_LEAVES
 
+    def targets(self):
+        """locations an assignment may go to: the leaves, and (fresh=True) locations that do not exist yet"""
+        if self.o.fresh and self.o.nested and self.draw(st.integers(0, 3)) == 0:
+            return list(self.leaves()) + list(W.FRESH_LEAVES) * 3
+        return self.leaves()
+
     def count_excl(self, why):
         self.excluded[why] = self.excluded.get(why, 0) + 1
 
@@ -133,7 +141,7 @@ class Gen:
         weighted = cands + [k for k in cands if k in produced] * 3     # favour chains
         tg = G.TermGen([W.ast_loc(k) for k in weighted], [], fn, comp, lits=hist_numbers, ops=ops,
                        builtins=builtins, unary=["-", "+"], allow_eq=self.o.eq,
-                       allow_divmod=self.o.divmod, comp_one_in=self.o.comp_one_in, cont_locs=conts, proj=self.o.proj)
+                       allow_divmod=self.o.divmod, divmod_item=self.o.divmod_item, comp_one_in=self.o.comp_one_in, cont_locs=conts, proj=self.o.proj)
         d = self.draw(st.integers(1, self.o.depth))
         ast = tg.term(self.draw, d)
         if self.o.risky_ops and self.draw(st.integers(0, 9)) == 0:
@@ -156,7 +164,7 @@ class Gen:
     # ---- operation makers (return op dict or None)
     def mk_sete(self):
         ft_t, kb_t, kb_s, _ = self.roles()
-        cands = [k for k in self.leaves() if k not in ft_t and k not in kb_t and k not in kb_s]
+        cands = [k for k in self.targets() if k not in ft_t and k not in kb_t and k not in kb_s]
         if not cands:
             return None
         for attempt in range(4):
@@ -172,7 +180,7 @@ class Gen:
 
     def mk_setv(self):
         ft_t, kb_t, kb_s, _ = self.roles()
-        cands = [k for k in self.leaves() if k not in ft_t]
+        cands = [k for k in self.targets() if k not in ft_t]
         extra = [W.IDX_LEAF, W.KEY_LEAF] if self.o.comp and self.o.nested else []
         # bias towards locations that something depends on
         m = self.model
